@@ -3,6 +3,9 @@ use frv::props;
 use serde_json::Value;
 use std::time::Instant;
 
+#[global_allocator]
+static ALLOC: frv::alloc_count::Counting = frv::alloc_count::Counting;
+
 fn usage() -> ! {
     eprintln!("usage: frv <ID> <quick|thorough> | frv <ID> --replay <file>");
     std::process::exit(2)
@@ -22,6 +25,41 @@ fn main() {
     let threads = std::env::var("VERIF_THREADS").ok().and_then(|s| s.parse().ok()).unwrap_or(16usize);
     rayon::ThreadPoolBuilder::new().num_threads(threads).stack_size(64 << 20).build_global().unwrap();
 
+    if args[2] == "--worker" {
+        let ctx = RunCtx { prop, tier: Tier::Quick, seed, known: Known::default(), start: Instant::now(), strict: true };
+        props::worker(&ctx, &args[3..]);
+        return;
+    }
+    if args[1] == "C01" && args[2] == "--probe" {
+        // debugging aid: frv C01 --probe <pattern> <text>
+        let (pat, text) = (&args[3], args.get(4).cloned().unwrap_or_default());
+        match frv::engine::build(pat) {
+            frv::engine::Built::Ok(re) => {
+                println!("vm={} captures_len={} names={:?}", frv::engine::is_vm(&re), re.captures_len(), re.capture_names().collect::<Vec<_>>());
+                println!("{}", frv::engine::debug_listing(&re));
+                for pos in frv::engine::char_offsets(&text) {
+                    println!("from {}: find={} caps={}", pos, frv::engine::find_from_pos(&re, &text, pos).show(), frv::engine::captures_from_pos(&re, &text, pos).show());
+                }
+                println!("find_iter={}", frv::engine::find_iter_spans(&re, &text, 50).show());
+            }
+            frv::engine::Built::Err(e) => println!("Err: {} / {:?}", e, e),
+            frv::engine::Built::Panic(p) => println!("PANIC: {}", p),
+        }
+        return;
+    }
+    if args[2] == "--one" {
+        props::c06::one(args.get(3).map(|s| s.as_str()).unwrap_or(""));
+        return;
+    }
+    // watchdog: a check that makes no progress is inconclusive (exit 2), never a violation
+    {
+        let limit: u64 = std::env::var("VERIF_WATCHDOG_S").ok().and_then(|s| s.parse().ok()).unwrap_or(if args[2] == "thorough" { 4 * 3600 } else { 1500 });
+        std::thread::spawn(move || {
+            std::thread::sleep(std::time::Duration::from_secs(limit));
+            eprintln!("watchdog: no result after {} s - inconclusive", limit);
+            std::process::exit(2);
+        });
+    }
     if args[2] == "--replay" {
         let path = args.get(3).unwrap_or_else(|| usage());
         let ctx = RunCtx { prop, tier: Tier::Quick, seed, known: Known::load(), start: Instant::now(), strict: true };
